@@ -326,6 +326,92 @@ def const_eval(e, depth=0):
     return None
 
 
+def compile_scalar(e, var_canon, depth=0):
+    """Compile an integer/boolean expression over ONE free variable (the sub-expression whose canon() is var_canon)
+    into a Python function int -> int, or None when it uses anything outside plain integer arithmetic. Used to decide
+    equivalence of small conditions by exhaustive evaluation over a finite domain (e.g. all u16 values)."""
+    if depth > 60:
+        return None
+    if canon(e) == var_canon:
+        return lambda x: x
+    k = e[0]
+    if k == "const":
+        v = e[1]
+        return (lambda x: v) if isinstance(v, int) else None
+    if k in ("ref", "deref"):
+        return compile_scalar(e[1], var_canon, depth + 1)
+    if k == "mutlocal":
+        return compile_scalar(e[2], var_canon, depth + 1)
+    if k == "cast" and e[1] == "IntToInt":
+        f = compile_scalar(e[2], var_canon, depth + 1)
+        rng = INT_RANGE.get(e[3])
+        if f is None or not rng:
+            return None
+        lo, hi = rng
+        m = hi - lo + 1
+        return lambda x: (f(x) - lo) % m + lo
+    if k == "unop" and e[1] == "Not":
+        f = compile_scalar(e[2], var_canon, depth + 1)
+        return None if f is None else (lambda x: 1 - f(x))
+    if k == "tfield" and e[2] == 0:
+        inner = peel(e[1])
+        if inner[0] == "call" and inner[2] is not None and re.search(r"::overflowing_(add|sub|mul)$", inner[2].npath):
+            return _compile_arith(inner, var_canon, depth, "wrapping")
+        if inner[0] == "binop" and inner[1].endswith("WithOverflow"):
+            return compile_scalar(("binop", inner[1].replace("WithOverflow", ""),) + tuple(inner[2:]), var_canon, depth + 1)
+        return None
+    if k == "call" and e[2] is not None:
+        m = re.search(r"::(wrapping|saturating)_(add|sub|mul)$", e[2].npath)
+        if m:
+            return _compile_arith(e, var_canon, depth, m.group(1))
+        return None
+    if k == "binop":
+        a = compile_scalar(e[2], var_canon, depth + 1)
+        b = compile_scalar(e[3], var_canon, depth + 1)
+        if a is None or b is None:
+            return None
+        base = e[1].replace("Unchecked", "")
+        if base.endswith("WithOverflow"):
+            return None
+        rng = INT_RANGE.get(e[4] if len(e) > 4 else None)
+        cmpf = {"Eq": lambda p, q: p == q, "Ne": lambda p, q: p != q, "Lt": lambda p, q: p < q, "Le": lambda p, q: p <= q,
+                "Gt": lambda p, q: p > q, "Ge": lambda p, q: p >= q}
+        if base in cmpf:
+            g = cmpf[base]
+            return lambda x: int(g(a(x), b(x)))
+        bitf = {"BitAnd": lambda p, q: p & q, "BitOr": lambda p, q: p | q, "BitXor": lambda p, q: p ^ q}
+        if base in bitf:
+            g = bitf[base]
+            return lambda x: g(a(x), b(x))
+        if base in ("Add", "Sub", "Mul", "Shl", "Shr") and rng:
+            lo, hi = rng
+            m = hi - lo + 1
+            g = {"Add": lambda p, q: p + q, "Sub": lambda p, q: p - q, "Mul": lambda p, q: p * q,
+                 "Shl": lambda p, q: p << (q % 128), "Shr": lambda p, q: p >> (q % 128)}[base]
+            return lambda x: (g(a(x), b(x)) - lo) % m + lo
+        return None
+    return None
+
+
+def _compile_arith(call, var_canon, depth, mode):
+    c = call[2]
+    if len(call[3]) != 2:
+        return None
+    a = compile_scalar(call[3][0], var_canon, depth + 1)
+    b = compile_scalar(call[3][1], var_canon, depth + 1)
+    m = re.search(r"<impl (\w+)>::\w+$", c.npath)
+    rng = INT_RANGE.get(m.group(1)) if m else None
+    if a is None or b is None or not rng:
+        return None
+    lo, hi = rng
+    n = hi - lo + 1
+    op = c.npath.rsplit("_", 1)[1]
+    g = {"add": lambda p, q: p + q, "sub": lambda p, q: p - q, "mul": lambda p, q: p * q}[op]
+    if mode == "saturating":
+        return lambda x: min(hi, max(lo, g(a(x), b(x))))
+    return lambda x: (g(a(x), b(x)) - lo) % n + lo
+
+
 # ---------------------------------------------------------------------------
 # A5 — switch tables
 
